@@ -446,7 +446,7 @@ pub fn gen_prog(rng: &mut Rng, max_tasks: usize) -> AProg {
 
 /// Terminating programs around a nested block_on inside a poll (wake for the outer pend arrives while
 /// the task sleeps in the nested block_on, from the same or from different tasks, in either order).
-fn nested_progs() -> Vec<AProg> {
+pub fn nested_progs() -> Vec<AProg> {
     let mut v = nested_progs_base();
     // the same shapes with the second wait blocking in a synchronous primitive
     for p in nested_progs_base() {
@@ -474,7 +474,7 @@ fn nested_progs_base() -> Vec<AProg> {
 }
 
 /// A JoinHandle that is polled by one task and completed while another task awaits it.
-fn moved_handle_progs() -> Vec<AProg> {
+pub fn moved_handle_progs() -> Vec<AProg> {
     vec![
         AProg { tasks: vec![vec![AOp::Spawn(1), AOp::AwaitMoved(1)], vec![AOp::Yield, AOp::Add, AOp::Yield]], slots: 1, must_deadlock: false },
         AProg { tasks: vec![vec![AOp::Spawn(1), AOp::Spawn(2), AOp::AwaitMoved(1), AOp::Await(2)], vec![AOp::Pend(0)], vec![AOp::Yield, AOp::Wake(0)]], slots: 1, must_deadlock: false },
@@ -482,7 +482,7 @@ fn moved_handle_progs() -> Vec<AProg> {
     ]
 }
 
-fn deadlock_progs() -> Vec<AProg> {
+pub fn deadlock_progs() -> Vec<AProg> {
     vec![
         // awaited task pends on a slot nobody wakes
         AProg { tasks: vec![vec![AOp::Spawn(1), AOp::Await(1)], vec![AOp::Pend(0)]], slots: 1, must_deadlock: true },
